@@ -43,6 +43,13 @@ EXPLANATION = (
     "random stream for bootstrap factors below 1 is excluded by the "
     "property; floating-point effects of BLAS blocking are not decided.")
 
+EXPLANATION += (
+    ' Added after the seeded rounds: the sparse readers do not place '
+    "values by pointer scatter (R-IDIOM/pointer-scatter), so a cell's "
+    'row does not depend on whether an earlier cell of the chunk is '
+    'empty.'
+)
+
 RULE_TEXT = (
     "one obligation per kernel function x configuration (declared type, "
     "row independence) and per index identity")
